@@ -73,10 +73,22 @@ def run_case(ctx, rng, ci):
     quantiles = sorted(rng.sample([0.0, 0.25, 0.5, 0.75, 1.0], rng.randint(2, 3)))
     pclass = rng.choice(["random", "extremes", "edges", "single-per-bin"])
     ens = source != "cdf" or rng.random() < 0.3
+    # one-decimal member values that are not exact in single precision, thresholds equal to members: text values are
+    # doubles, so "member <= threshold" must be decided on the numbers written in the file
+    decimal = source == "ensemble" and rng.random() < 0.4
+    if decimal:
+        pclass = "random"
     ds = gen.make_dataset(rng, n_inputs=F, prob=True, pit=True, ens=ens, members=rng.randint(1, 9), miss=rng.choice([0.0, 0.1, 0.2]),
                           sparse=0.0, thresholds=thresholds, quantiles=quantiles, max_t=5, max_l=4, max_s=3,
-                          vrange=(0, 12), integerish=rng.random() < 0.5, fmt=("text" if pclass == "edges" else None))
+                          vrange=(0, 12), integerish=rng.random() < 0.5, fmt=("text" if (pclass == "edges" or decimal) else None))
     tweak_probabilities(rng, ds, pclass)
+    DEC = [0.1, 0.3, 0.7, 0.9, 1.1, 2.7, 3.3, 0.5]
+    if decimal:
+        ctx.count("decimal_member_cases")
+        for inp in ds["inputs"]:
+            for c in inp["cells"].values():
+                if c.get("e"):
+                    c["e"] = [None if x is None else rng.choice(DEC) for x in c["e"]]
     if rng.random() < 0.15:          # constant observations
         for inp in ds["inputs"]:
             for c in inp["cells"].values():
@@ -124,6 +136,8 @@ def run_case(ctx, rng, ci):
             ts = [3.5, 7.25] if two else [rng.choice([3.5, 7.25, 1.0])]
         if source == "cdf" and not stored:
             continue
+        if decimal:
+            ts = sorted(rng.sample(DEC, 2)) if two else [rng.choice(DEC)]
         t0, t1 = ts[0], (ts[1] if two else None)
         fields = [("obs",), ("thr", t0)] + ([("thr", t1)] if two else [])
         iv = verif.util.get_intervals(b, np.array(ts))[0]
